@@ -1,0 +1,6 @@
+//go:build !verif
+
+package pilosa
+
+// verifResizeEvent is a no-op without build tag verif (see verif_hook_resize_on.go).
+func verifResizeEvent(c *cluster, point string, kv ...interface{}) {}
